@@ -64,6 +64,11 @@ def alphabet(tier):
     ops.append(("show_tables_in_database",))
     for s_ in SCHEMAS:
         ops.append(("show_tables_in_schema", s_))
+    # a fully qualified scope / name needs no session context at all
+    for d, s_ in (("DB1", "S1"), ("DB2", "S1")):
+        ops.append(("show_tables_in_schema_q", d, s_))
+    ops.append(("show_schemas_in_database_q", "DB1"))
+    ops.append(("select_information_schema_q", "DB1"))
     for d in DBS + ("NOPE",):
         ops.append(("use_db", d))
     for s in SCHEMAS + ("NOPE",):
@@ -94,6 +99,12 @@ def op_sql(op, tag):
         return "show terse tables in database"
     if k == "show_tables_in_schema":
         return f"show terse tables in schema {op[1].lower()}"
+    if k == "show_tables_in_schema_q":
+        return f"show terse tables in schema {op[1].lower()}.{op[2].lower()}"
+    if k == "show_schemas_in_database_q":
+        return f"show terse schemas in database {op[1].lower()}"
+    if k == "select_information_schema_q":
+        return f"select count(*) from {op[1].lower()}.information_schema.tables"
     if k == "create_db":
         return f"create database {op[1].lower()}"
     if k == "drop_db":
@@ -233,6 +244,18 @@ class Model:
             if cd not in self.cat or op[1] not in self.cat[cd]:
                 return ("any",)  # SHOW ... IN <missing scope>: failure not demanded (see C07)
             return ("ok_names", sorted(f"{op[1]}.{n}" for n, o in self.cat[cd][op[1]].items() if o[0] == "table"))
+        if k == "show_tables_in_schema_q":
+            if op[1] not in self.cat or op[2] not in self.cat[op[1]]:
+                return ("any",)
+            return ("ok_names", sorted(f"{op[2]}.{n}" for n, o in self.cat[op[1]][op[2]].items() if o[0] == "table"))
+        if k == "show_schemas_in_database_q":
+            if op[1] not in self.cat:
+                return ("any",)
+            return ("ok_names", sorted(self.cat[op[1]]))
+        if k == "select_information_schema_q":
+            if op[1] not in self.cat:
+                return ("any",)
+            return ("ok_any",)  # which rows it lists is C09's subject; here: the qualified name needs no context
         if k == "use_db":
             if op[1] not in self.cat:
                 return ("err", None)
@@ -417,10 +440,10 @@ def one_transition(init, hist, c, op, live, acc, tier):
             raise _Done
         cur = conns[c]._verif_cur  # noqa: SLF001
         cur.execute(sql)
-        rows = cur.fetchall() if op[0] in ("select", "describe", "show_schemas", "show_tables_in_database", "show_tables_in_schema") else None
+        rows = cur.fetchall() if op[0] in ("select", "describe", "show_schemas", "show_tables_in_database", "show_tables_in_schema", "show_tables_in_schema_q", "show_schemas_in_database_q") else None
         if op[0] == "describe":
             rows = [r[0] for r in rows]
-        elif op[0] == "show_schemas":
+        elif op[0] in ("show_schemas", "show_schemas_in_database_q"):
             rows = sorted(r[1] for r in rows if str(r[1]).lower() != "information_schema")
         elif op[0].startswith("show_tables"):
             rows = sorted(f"{r[4]}.{r[1]}" for r in rows if not str(r[1]).lower().startswith("_fs_"))
@@ -465,9 +488,13 @@ def judge(init, hist, c, op, acc, m, m_pre, exp, got, sql, pre_model_key, pre_ct
     # (a) success / failure as the model says
     if exp[0] == "any":
         pass
+    elif exp[0] == "ok_any":
+        if got[0] != "ok":
+            acc.violation("C03.must_succeed", base + f",exc={got[1].split('.')[-1]}", {"sql": sql, "ctx": pre_ctx[c], "got": got}, rp)
     elif exp[0] == "ok_names":
         if got[0] != "ok":
-            acc.violation("C03.must_succeed", base.split(",ctx=")[0] + f",exc={got[1].split('.')[-1]}", {"sql": sql, "ctx": pre_ctx[c], "got": got}, rp)
+            b_ = base if op[0].endswith("_q") else base.split(",ctx=")[0]
+            acc.violation("C03.must_succeed", b_ + f",exc={got[1].split('.')[-1]}", {"sql": sql, "ctx": pre_ctx[c], "got": got}, rp)
         elif got[1] != exp[1]:
             acc.violation("C03.resolution", base + ",listing", {"sql": sql, "expected": exp[1], "got": got[1], "ctx": pre_ctx[c]}, rp)
     elif exp[0] == "err":
